@@ -18,7 +18,9 @@ RULE = ('Molecules and partitions of the C01 generator (growth-enumerated molecu
         'subset), which end atom is duplicated, descriptor kind of the remaining cuts, order of the fragments in the base '
         'graph (all permutations up to 4 fragments), constructor. Every leaf is resolved on the real resolver; oracle: result is '
         'the model molecule (elements, charges, orders, R-valence hydrogens) and equals the uncut resolution; each shared atom '
-        'carries exactly the coarse keys of the fragments sharing it, no other heavy atom has more than one key. '
+        'carries exactly the coarse keys of the fragments sharing it, no other heavy atom has more than one key. Layered strings of the '
+        'C06 generator with shared nodes at one and at two consecutive levels: one node fewer per shared pair at each step, result '
+        'isomorphic to the disjoint (flattened) description. '
         'Non-trivial = at least one shared pair.')
 ASSUMPTIONS = c01.ASSUMPTIONS + [
     'only bonds of order 1 or aromatic bonds can be expressed by sharing an end atom',
@@ -60,6 +62,8 @@ def build(inp):
             keep, dup = (a, b) if end == 1 else (b, a)      # dup is duplicated into keep's fragment
             new = len(atoms)
             atoms.append(list(mol['atoms'][dup]))
+            if dup in mol.get('arom_h', ()):
+                mol = dict(mol, arom_h=list(mol['arom_h']) + [new])
             bonds.append([keep, new, o])
             comps[owner[keep]].append(new)
             descr.setdefault(new, []).append(('!' + L, 1))
@@ -72,6 +76,9 @@ def build(inp):
             descr.setdefault(a, []).append((ta, oo))
             descr.setdefault(b, []).append((tb, oo))
     mol2 = {'atoms': atoms, 'bonds': bonds}
+    if mol.get('arom_h'):
+        # the duplicate of a pyrrole-type nitrogen is written with its hydrogen as well
+        mol2['arom_h'] = list(mol['arom_h'])
     frags = []
     for i, c in enumerate(comps):
         frags.append('#F%d=%s' % (i, M.render_fragment(mol2, c, descr, inp['starts'][i], descr_pos=inp.get('descr_pos', 'after'))))
